@@ -87,18 +87,6 @@ func genC09(seed uint64, tier string) Case {
 			c.Ops = append(c.Ops, Op{C: cl, K: "get", A: []int64{key}})
 		}
 	}
-	// Known findings (removal overlapping another operation on the same key) would otherwise end most
-	// histories early: 60% of the batch replaces Delete/ShiftByKeys by Get so that the rest of the space
-	// (Set / Increment / Patch / Get interleavings) is searched; the other 40% keeps re-demonstrating them.
-	if r.chance(3, 5) {
-		c.Cfg["no_removals"] = 1
-		for i := range c.Ops {
-			if c.Ops[i].K == "del" || c.Ops[i].K == "shift" {
-				c.Ops[i].K = "get"
-				c.Ops[i].A = c.Ops[i].A[:1]
-			}
-		}
-	}
 	c.Sched = genSched(r)
 	if c.Sched.PreemptPPM == 0 {
 		c.Sched.PreemptPPM = 20_000
